@@ -228,5 +228,104 @@ Proof.
         apply IH; [lia| |exact Hst].
         unfold mp_sw0. cbn. rewrite Hst.
         repeat split; try assumption; try lia; intros; try congruence; try lia.
-        unfold mp_cand_ok in *. cbn. exact Hco.
+Qed.
+
+(* ------------------------------------------------------------------ the single-byte states *)
+Definition mp_is_single (st : mp_pstate) : Prop :=
+  st = MpsIsLast2 \/ st = MpsIsLast1 \/ st = MpsEatLws \/ st = MpsEatLwsCr.
+
+Lemma single_spec data s pos sp drp :
+  mp_sw data s pos sp drp -> mp_is_single (mps_state s) ->
+  match mp_single data s pos sp drp with
+  | MpBreak s' p' sp' d' =>
+      mp_sw0 data s' p' sp' d' /\ mps_state s' <> MpsBoundary /\ mps_state s' <> MpsInit /\
+      mp_M data s' p' sp' d' < mp_M data s pos sp drp
+  | _ => False
+  end.
+Proof.
+  intros ((Hf & Hb & Hsp & Hpl & Hdp & Hnb & HB) & Hlt) Hs. unfold mp_single.
+  assert (Hns : mps_state s <> MpsBoundary) by (destruct Hs as [H|[H|[H|H]]]; rewrite H; discriminate).
+  specialize (Hlt Hns). specialize (Hnb Hns).
+  destruct (rd_some data pos) as [c Hc]; [lia|]. rewrite Hc.
+  unfold mp_M.
+  destruct Hs as [H|[H|[H|H]]]; rewrite H.
+  - destruct (c =? mp_DASH)%N; unfold mp_sw0; cbn -[Nat.mul]; rewrite ?H; cbn [mp_x mp_w];
+      repeat split; try assumption; try lia; try discriminate; intros; try congruence.
+  - destruct (c =? mp_DASH)%N; unfold mp_sw0; cbn -[Nat.mul]; rewrite ?H; cbn [mp_x mp_w];
+      repeat split; try assumption; try lia; try discriminate; intros; try congruence.
+  - destruct (c =? CR)%N; [|destruct (c =? LF)%N; [|destruct (htp_is_lws c)]]; unfold mp_sw0; cbn -[Nat.mul]; rewrite ?H; cbn [mp_x mp_w];
+      repeat split; try assumption; try lia; try discriminate; intros; try congruence.
+  - destruct (c =? LF)%N; unfold mp_sw0; cbn -[Nat.mul]; rewrite ?H; cbn [mp_x mp_w];
+      repeat split; try assumption; try lia; try discriminate; intros; try congruence.
+Qed.
+
+Lemma sw0_inv_at_end data s pos sp drp :
+  mp_sw0 data s pos sp drp -> mps_state s <> MpsBoundary -> mp_inv s.
+Proof.
+  intros (Hf & Hb & Hsp & Hpl & Hdp & Hnb & HB) Hns. unfold mp_inv, mp_cand_ok.
+  rewrite (Hnb Hns). repeat split; try assumption; intros; congruence.
+Qed.
+
+(* ------------------------------------------------------------------ the switch *)
+Lemma switch_ok fuel : forall data s pos sp drp,
+  mp_sw data s pos sp drp -> mps_state s <> MpsInit -> mp_M data s pos sp drp < fuel ->
+  exists s', mp_switch fuel data s pos sp drp = MpOk s' /\ mp_inv s'.
+Proof.
+  induction fuel as [|fuel IH]; intros data s pos sp drp Hsw Hni HM; [lia|].
+  cbn [mp_switch].
+  destruct (mps_state s) eqn:Est; try congruence.
+  - (* STATE_DATA *)
+    destruct Hsw as ((Hf & Hb & Hsp & Hpl & Hdp & Hnb & HB) & Hlt).
+    assert (Hns : mps_state s <> MpsBoundary) by (rewrite Est; discriminate).
+    pose proof (data_loop_spec (length data - pos) data s pos sp drp) as HD.
+    specialize (HD ltac:(lia) Hsp Hdp Hf Hb Est (Hnb Hns)).
+    specialize (HD ltac:(intros _; right; specialize (Hlt Hns); lia)).
+    destruct (mp_data_loop (length data - pos) data s pos sp drp) as [s' p' sp' d'|s' p' sp' d'|s'|]; try contradiction.
+    + destruct HD as (H0 & H1 & H2 & H3 & H4).
+      apply IH; [split; [exact H0|intros; congruence]|rewrite H1; discriminate|].
+      unfold mp_M in *. rewrite H1. rewrite Est in HM. cbn in *. subst sp'. lia.
+    + destruct HD as (H0 & H1). subst p'. rewrite Nat.ltb_irrefl. eauto.
+  - (* STATE_BOUNDARY *)
+    destruct Hsw as (Hsw0 & Hlt).
+    pose proof (bnd_loop_spec (length data - pos) data s pos sp drp) as HD.
+    destruct Hsw0 as (Hf & Hb & Hsp & Hpl & Hdp & Hnb & HB).
+    specialize (HD ltac:(lia) ltac:(unfold mp_sw0; tauto) Est).
+    destruct (HB Est) as (Hsd & _).
+    destruct (mp_bnd_loop (length data - pos) data s pos sp drp) as [s' p' sp' d'|s' p' sp' d'|s'|]; try contradiction.
+    + destruct HD as (H0 & [(H1 & H2)|(H1 & H2)]).
+      * apply IH; [exact H0|rewrite H1; discriminate|].
+        unfold mp_M in *. rewrite H1. rewrite Est in HM. cbn in *. lia.
+      * apply IH; [exact H0|rewrite H1; discriminate|].
+        destruct H0 as ((_ & _ & _ & Hp' & _) & _).
+        unfold mp_M in *. rewrite H1. rewrite Est in HM. cbn in *. lia.
+    + destruct HD as (H0 & H1). subst p'. rewrite Nat.ltb_irrefl. eauto.
+    + eauto.
+  - pose proof (single_spec data s pos sp drp Hsw ltac:(unfold mp_is_single; rewrite Est; tauto)) as HS.
+
+    destruct (mp_single data s pos sp drp) as [s' p' sp' d'|s' p' sp' d'|s'|]; try contradiction.
+    destruct HS as (H0 & H1 & H2 & H3).
+    destruct (p' <? length data) eqn:El.
+    + apply Nat.ltb_lt in El. apply IH; [split; [exact H0|intros; exact El]|exact H2|lia].
+    + eexists; split; [reflexivity|]. eapply sw0_inv_at_end; eauto.
+  - pose proof (single_spec data s pos sp drp Hsw ltac:(unfold mp_is_single; rewrite Est; tauto)) as HS.
+
+    destruct (mp_single data s pos sp drp) as [s' p' sp' d'|s' p' sp' d'|s'|]; try contradiction.
+    destruct HS as (H0 & H1 & H2 & H3).
+    destruct (p' <? length data) eqn:El.
+    + apply Nat.ltb_lt in El. apply IH; [split; [exact H0|intros; exact El]|exact H2|lia].
+    + eexists; split; [reflexivity|]. eapply sw0_inv_at_end; eauto.
+  - pose proof (single_spec data s pos sp drp Hsw ltac:(unfold mp_is_single; rewrite Est; tauto)) as HS.
+
+    destruct (mp_single data s pos sp drp) as [s' p' sp' d'|s' p' sp' d'|s'|]; try contradiction.
+    destruct HS as (H0 & H1 & H2 & H3).
+    destruct (p' <? length data) eqn:El.
+    + apply Nat.ltb_lt in El. apply IH; [split; [exact H0|intros; exact El]|exact H2|lia].
+    + eexists; split; [reflexivity|]. eapply sw0_inv_at_end; eauto.
+  - pose proof (single_spec data s pos sp drp Hsw ltac:(unfold mp_is_single; rewrite Est; tauto)) as HS.
+
+    destruct (mp_single data s pos sp drp) as [s' p' sp' d'|s' p' sp' d'|s'|]; try contradiction.
+    destruct HS as (H0 & H1 & H2 & H3).
+    destruct (p' <? length data) eqn:El.
+    + apply Nat.ltb_lt in El. apply IH; [split; [exact H0|intros; exact El]|exact H2|lia].
+    + eexists; split; [reflexivity|]. eapply sw0_inv_at_end; eauto.
 Qed.
